@@ -227,6 +227,21 @@ func init() {
 	reg("(*database/sql.Row).Scan", "Scan copies the selected columns positionally, returns sql.ErrNoRows when no row matched, or fails", func(x *Exec, st *State, fr *Frame, c *callCtx) bool {
 		return x.sqlRowScan(st, fr, c)
 	})
+	reg("database/sql.Open", "sql.Open: may fail; on success a non-nil handle (the connection itself is the driver's)", func(x *Exec, st *State, fr *Frame, c *callCtx) bool {
+		tup := c.ret.Type().(*types.Tuple)
+		fail := x.sym.Fresh("sql.open.fails", SBool)
+		ts, fs := x.fork(st, fail, "sql.Open fails")
+		if ts != nil {
+			x.completeCall(ts, c, VTuple{[]Value{VPtr{Nil: TTrue, Typ: tup.At(0).Type()}, x.freshErr(ts, "sql.open.err", TFalse)}})
+		}
+		if fs != nil {
+			x.callCounter++
+			pt := tup.At(0).Type().(*types.Pointer)
+			obj := x.alloc(fs, VOpaque{Typ: pt.Elem(), Name: fmt.Sprintf("sql.DB!%d", x.callCounter)})
+			x.completeCall(fs, c, VTuple{[]Value{VPtr{Nil: TFalse, Loc: &Loc{Obj: obj}, Typ: pt}, VIface{Nil: TTrue, Typ: errType()}}})
+		}
+		return true
+	})
 	reg("(*database/sql.Tx).Query", "Query evaluates a SELECT; rows are delivered by Next/Scan", func(x *Exec, st *State, fr *Frame, c *callCtx) bool {
 		return x.sqlQuery(st, fr, c)
 	})
